@@ -328,7 +328,7 @@ def save_and_judge(sc, root, faults):
             # clause 4: success => re-parse reproduces the configuration, cwd unchanged
             if os.getcwd() != cwd0:
                 ctx.violation("cwd-changed", dict(base, cause="success", effect="cwd"), "cwd %s -> %s" % (cwd0, os.getcwd()))
-            if not sim.fired and not sc.get("mutate") and not sv["skip_validation"]:
+            if not sim.fired and not sv["skip_validation"]:
                 sim.suspended -= 1
                 try:
                     o2 = run_op(lambda: p.parse_path(os.path.join(root, sv["target"])))
